@@ -165,3 +165,14 @@ PROPS["C11"] = {"props_files": ["Props/C11.v"], "go_tests": ["TestVerifPersist"]
 PROPS["C12"] = {"props_files": ["Props/C12.v"], "go_tests": ["TestVerifPersist"], "level": "proof", "rule": PERSIST_RULE,
                 "trusted_base": PERSIST_TB, "assumptions": ["'detects': a block whose checksum verifies carries saved data (accidental damage does not collide xxh3); validated on every damaged block seen"],
                 "monitor_tags": ["C12"], "explanation": "damage theorems on the block model; every damaged stream replayed on real LoadCache"}
+
+HYB_RULE = ("random histories on a real hybrid Store (secondary cache scripted, one worker gated through hook H4, events delivered by the harness in "
+            "FIFO or overtaking order): Set/SetWithTTL/Get-with-promotion/loading Get/Delete, evictions handed to the worker, secondary Set failing "
+            "in 20-30% of the worker steps, MaxSize 2..15; non-trivial = >= 3 steps; distinct = sha1 of the case")
+HYB_TB = STORE_TB + ["hook H4 (worker schedule points)", "admission probability 1 and a hand-off queue that never fills (256) in the exercised cases"]
+PROPS["C14"] = {"props_files": ["Props/C14.v"], "go_tests": ["TestVerifHybrid"], "level": "proof", "rule": HYB_RULE, "trusted_base": HYB_TB,
+                "assumptions": ["secondary operations are atomic with respect to the shard lock as in the code (Get/Set/Delete under the shard lock or by the single worker)"],
+                "monitor_tags": ["C14"], "explanation": "hybrid extension of the store model; every read compared with the real hybrid store and with a last-completed-write shadow"}
+PROPS["C15"] = {"props_files": ["Props/C15.v"], "go_tests": ["TestVerifHybrid"], "level": "proof", "rule": HYB_RULE, "trusted_base": HYB_TB,
+                "assumptions": ["admission probability 1, hand-off queue not full"],
+                "monitor_tags": ["C15"], "explanation": "demotion and boundedness on the hybrid model; secondary contents and hand-off queue compared with the real store"}
